@@ -278,16 +278,18 @@ def wave_job(job):
                     dsel = {(0, l, p, q): dv[(sel, l, p, q)] for l in range(len(c.lines)) for p in range(2) for q in range(2)}
                     ref = wsim.SymWave(eng, cls, c, 8, stim, {}, dvars=dsel, tvars=tv).run()
                     r0 = _results(ref)
-                    for mode in (0, 1, 2):
+                    for mode in (0, 1, 2, 3):
                         if mode == 0:
                             sw = wsim.SymWave(eng, cls, c, 8, stim, {}, dvars=dv, tvars=tv, ndata=ND)
                             sw.w.simctl_int[1] = 0
                         else:           # two lanes with different datasets; the lane of interest is lane 1 (mode 1) or lane 0 (mode 2 of this loop)
-                            lane = 1 if mode == 1 else 0
+                            lane = 1 if mode in (1, 3) else 0
                             sw = SymWaveN(eng, cls, c, 8, stim, {}, 2, lane, dv, tv, ndata=ND, tag='ds')
                             sw.w.simctl_int[1] = 1
                             sw.w.simctl_int[0] = [sel, 1 - sel] if lane == 0 else [1 - sel, sel]
-                        sw.run(seed=sel if mode == 0 else 1)
+                            if mode == 3:       # mixed methods in one batch: lane 0 selects by seed (method 0), lane 1 per lane (method 1)
+                                sw.w.simctl_int[1] = [0, 1]
+                        sw.run(seed=sel if mode == 0 else (1 - sel if mode == 3 else 1))
                         k = _same(eng, r0, _results(sw, 0 if mode == 0 else lane))
                         rep.counts['obligations'] += 1
                         if k is not None: bad = bad or (f's[{k[0]}] with dataset {sel} selected by mode {mode} differs from simulating with that dataset alone ({cls}; mode 1/2 of this check = per-lane selection with the stimulus in lane 1/0)', {'cls': cls, 'sel': sel, 'selmode': mode})
@@ -371,17 +373,18 @@ def replay_wave(data):
             for sel in range(ND):
                 dsel = {(0, l, p, q): dvals.get((sel, l, p, q), 0.0) for l in range(len(c.lines)) for p in range(2) for q in range(2)}
                 ref = wsim.concrete_wave(cls, c, 8, stim, {}, dsel, tvals)
-                for mode in (0, 1, 2):
+                for mode in (0, 1, 2, 3):
                     d = np.zeros((ND, len(c.lines), 2, 2), dtype=np.float32)
                     for (k, l, p, q), v in dvals.items(): d[k, l, p, q] = v
-                    lane = 1 if mode == 1 else 0
+                    lane = 1 if mode in (1, 3) else 0
                     w = wsim.CLS[cls](c, d, sims=1 if mode == 0 else 2, c_caps=8)
                     for i, v in stim.items():
                         w.s[0, i, lane], w.s[2, i, lane] = wsim.VAL[v]; w.s[1, i, lane] = tvals.get(i, 0.0)
                         if mode: w.s[0, i, 1 - lane] = w.s[2, i, 1 - lane] = (1 - lane + i) % 2
                     w.simctl_int[1] = min(mode, 1)
                     if mode: w.simctl_int[0] = [sel, 1 - sel] if lane == 0 else [1 - sel, sel]
-                    w.s_to_c(); w.c_prop(seed=sel if mode == 0 else 1); w.c_to_s()
+                    if mode == 3: w.simctl_int[1] = [0, 1]
+                    w.s_to_c(); w.c_prop(seed=sel if mode == 0 else (1 - sel if mode == 3 else 1)); w.c_to_s()
                     if res(w, lane) != res(ref): out.append((cls, sel, mode))
         return bool(out), f'dataset selection differs for (class, dataset, mode) in {out}'
     except Exception as e:
